@@ -53,6 +53,16 @@ POCKET_CONFIGS = [('pocket-poly-pen0-trans', 0, 0, 1), ('pocket-poly-pen0-notran
 OPT_CONFIGS = [('opt-invis0-poly-pen0-trans', 0, 0, 1, 'invis0'), ('opt-invis0-poly-pen0-notrans', 0, 0, 0, 'invis0'),
                ('opt-invis0-poly-pen10-trans', 0, 10, 1, 'invis0'), ('opt-lees0-poly-pen0-trans', 0, 0, 1, 'lees0'),
                ('opt-invis0-lees0-poly-pen0-trans', 0, 0, 1, 'invis0-lees0'), ('opt-default-poly-pen0-trans', 0, 0, 1, 'default')]
+# shapeBufferDistance > 0 (seeded change C06-8, DESIGN 9.20): rectangles only, so that the routing polygon is exactly the rectangle grown by the buffer distance and
+# every oracle (scene validity, route_ok, fresh router, reference optimum) is that of the scene of GROWN rectangles.  Histories: the generic / move-heavy / noop /
+# addmove / only generators scaled by S and shrunk by buf (avoid_lib.buffered_ops) and the directed family "bufzone" (a rectangle added / moved / grown so that only
+# its buffer zone lies across a connector's current route).  (name, mode, pen, trans, buf, S)
+BUF_CONFIGS = [('buf4-poly-pen0-trans', 0, 0, 1, 4, 5), ('buf10-poly-pen0-notrans', 0, 0, 0, 10, 11), ('buf4-poly-pen10-trans', 0, 10, 1, 4, 5),
+               ('buf10-poly-pen0-trans', 0, 0, 1, 10, 12), ('buf10-orth-trans', 1, 10, 1, 10, 11), ('buf4-orth-notrans', 1, 10, 0, 4, 5)]
+# dual-mode routers (mode 2 = PolyLineRouting | OrthogonalRouting) with routing-type switches on existing connectors (seeded change C03-8, DESIGN 9.20): op Y = ConnRef::setRoutingType;
+# family "typeswitch" (avoid_lib.gen_typeswitch_history) and generic / move-heavy rectangle histories with injected switches; every connector is compared with the fresh dual-mode router's
+# connector of the SAME type (set before the fresh router's only transaction); poly-line connectors also with the reference optimum
+TYPE_CONFIGS = [('dual-typeswitch-pen10-trans', 2, 10, 1), ('dual-typeswitch-pen10-notrans', 2, 10, 0), ('dual-typeswitch-pen50-trans', 2, 50, 1)]
 CONTAINS_CONFIGS = [('contains-poly-pen0-trans', 0, 0, 1), ('contains-poly-pen0-notrans', 0, 0, 0), ('contains-poly-pen10-trans', 0, 10, 1),
                     ('contains-orth-trans', 1, 10, 1), ('contains-orth-notrans', 1, 10, 0)]
 
@@ -69,12 +79,14 @@ def op_str(o):
         return 'C %d %d %d %d %d' % (o[1], o[2][0], o[2][1], o[3][0], o[3][1])
     if o[0] == 'E':
         return 'E %d %d %d %d' % (o[1], o[2], o[3][0], o[3][1])
+    if o[0] == 'Y':
+        return 'Y %d %d' % (o[1], o[2])          # setRoutingType on a dual-mode router (mode 2): 1 poly-line, 2 orthogonal
     return 'P'
 
 
-def hist_script(ops, mode, pen, trans, opts=None):
-    """opts: public Router member flags ((name, value), ...), set right after the router is created (checks/avoid_opts.py)"""
-    return ['R %d %s 0.0 0.0 %d' % (mode, repr(float(pen)), trans)] + AO.opt_lines(opts) + [op_str(o) for o in ops] + ['X']
+def hist_script(ops, mode, pen, trans, opts=None, buf=0):
+    """opts: public Router member flags ((name, value), ...), set right after the router is created (checks/avoid_opts.py); buf: shapeBufferDistance"""
+    return ['R %d %s %s 0.0 %d' % (mode, repr(float(pen)), repr(float(buf)), trans)] + AO.opt_lines(opts) + [op_str(o) for o in ops] + ['X']
 
 
 def scene_valid(shapes, conns, generic=True, family=None):
@@ -121,8 +133,9 @@ def seq_apply(shapes, conns, o):
     return shapes, conns
 
 
-def simulate(ops, trans, generic=True, family=None):
-    """legality + validity of a history; returns the list of (shapes, conns) at each P, or None"""
+def simulate(ops, trans, generic=True, family=None, buf=0):
+    """legality + validity of a history; returns the list of (shapes, conns) at each P, or None.  buf > 0 (rectangles only): validity is that of the
+    scene of routing polygons (rectangles grown by the buffer distance)"""
     shapes, conns, fresh, snaps = {}, {}, set(), []
     for o in ops:
         if o[0] == 'P':
@@ -139,17 +152,19 @@ def simulate(ops, trans, generic=True, family=None):
             return None          # documented precondition: no add + delete of one shape in one transaction
         if o[0] == 'C' and o[1] in conns:
             return None
-        if o[0] == 'E' and o[1] not in conns:
+        if o[0] in ('E', 'Y') and o[1] not in conns:
             return None
         shapes, conns = seq_apply(shapes, conns, o)
         if o[0] == 'A':
             fresh.add(o[1])
-        if not scene_valid(shapes, conns, generic, family):
+        if buf and o[0] in ('A', 'T') and not A.is_rect(o[2]):
+            return None
+        if not scene_valid(A.inflate_shapes(shapes, buf), conns, generic, family):
             return None
     return snaps
 
 
-def gen_history(rng, trans, orth, w_add=28, w_move=30, w_resize=10, w_del=17, shared=False):
+def gen_history(rng, trans, orth, w_add=28, w_move=30, w_resize=10, w_del=17, shared=False, rect_only=False):
     """shared: 2-4 connectors, most of which share an endpoint POSITION with an earlier connector (coincident source points, coincident
     destination points, one's source on another's destination); endpoint moves may land exactly on another connector's endpoint or on a
     shape vertex (the only boundary points allowed)"""
@@ -159,7 +174,7 @@ def gen_history(rng, trans, orth, w_add=28, w_move=30, w_resize=10, w_del=17, sh
     def new_poly():
         for _ in range(40):
             x = rng.range(0, R - 1); y = rng.range(0, R - 1); w = rng.range(2, 11); h = rng.range(2, 11)
-            P = A.poly_in_box(rng, (x, y, x + w, y + h))
+            P = A.poly_in_box(rng, (x, y, x + w, y + h), 0 if rect_only else None)
             yield P
 
     fam = 'shared' if shared else None
@@ -308,7 +323,7 @@ def evaluate(exe, drv, qdrv, hists, stats, with_model=True, samples=None):
     fails = []
     lines = []
     for h in hists:
-        lines += hist_script(h['ops'], h['mode'], h['pen'], h['trans'], h.get('opts'))
+        lines += hist_script(h['ops'], h['mode'], h['pen'], h['trans'], h.get('opts'), h.get('buf', 0))
     runs, rc, err = A.run_harness(exe, lines)
     if rc != 0 or len(runs) != len(hists):
         if len(hists) == 1:
@@ -316,12 +331,12 @@ def evaluate(exe, drv, qdrv, hists, stats, with_model=True, samples=None):
         for h in hists:
             fails += evaluate(exe, drv, qdrv, [h], stats, with_model, samples)
         return fails
-    mlines = A.run_driver(qdrv, ['HIST %d %s' % (h['trans'], ' '.join(op_str(o) for o in h['ops'])) for h in hists])
+    mlines = A.run_driver(qdrv, ['HIST %d %s' % (h['trans'], ' '.join(op_str(o) for o in h['ops'] if o[0] != 'Y')) for h in hists])     # the queue model has no routing-type op (it changes no scene)
     # fresh routers for every process step of every history
     fresh_lines, fresh_idx = [], []
     per_hist = []
     for h, run, ml in zip(hists, runs, mlines):
-        snaps = simulate(h['ops'], h['trans'], generic=False, family=h.get('family')) or []
+        snaps = simulate(h['ops'], h['trans'], generic=False, family=h.get('family'), buf=h.get('buf', 0)) or []
         model = parse_model_line(ml)
         per_hist.append((snaps, model))
         h['_snaps'] = snaps
@@ -336,9 +351,14 @@ def evaluate(exe, drv, qdrv, hists, stats, with_model=True, samples=None):
         for k, (shapes, conns) in enumerate(snaps):
             ids = sorted(shapes)
             cids = sorted(conns)
-            L = ['R %d %s 0.0 0.0 1' % (h['mode'], repr(float(h['pen'])))] + AO.opt_lines(h.get('opts'))     # the fresh router has the same flags
+            L = ['R %d %s %s 0.0 1' % (h['mode'], repr(float(h['pen'])), repr(float(h.get('buf', 0))))] + AO.opt_lines(h.get('opts'))     # the fresh router has the same flags
             L += ['A %d %s' % (i, A.fmt_poly(shapes[i])) for i in ids]
             L += ['C %d %d %d %d %d' % (c, conns[c][0][0], conns[c][0][1], conns[c][1][0], conns[c][1][1]) for c in cids]
+            if h['mode'] == 2:
+                # dual-mode router: the fresh router's connectors get the routing type they have at this step, before its only transaction
+                ppos = [i for i, o in enumerate(h['ops']) if o[0] == 'P']
+                ty = A.conn_types_after(h['ops'][:ppos[k]])
+                L += ['Y %d 2' % c for c in cids if ty.get(c) == 2]
             L += ['P', 'X']
             fresh_lines += L
             fresh_idx.append((h, run, k))
@@ -400,24 +420,48 @@ def evaluate(exe, drv, qdrv, hists, stats, with_model=True, samples=None):
                                       ret=d['ret'], before=prev.get('disp_raw'), after=d.get('disp_raw')))
             prevP = True
             polys = [shapes[i] for i in sorted(shapes)]
+            if h.get('buf', 0):
+                # shapeBufferDistance > 0: the obstacles of the property are the routing polygons (rectangles grown by the buffer distance); tie to
+                # Obstacle::routingPolygon(): the harness prints it (line B) and it must be exactly the grown rectangle
+                polys = [A.inflate_rect(P, h['buf']) for P in polys]
+                rb = {i: [tuple(p) for p in P] for i, P in d['bshapes'].items()}
+                if rb != {i: [tuple(map(float, p)) for p in A.inflate_rect(shapes[i], h['buf'])] for i in sorted(shapes)}:
+                    fails.append(dict(step, kind='scene', what='routingPolygon() of a rectangle is not the rectangle grown by shapeBufferDistance',
+                                      router=rb, expected={i: A.inflate_rect(shapes[i], h['buf']) for i in sorted(shapes)}))
+                    break
             fr = fresh_of[(id(h), k)]
             if fr['exc'] is not None or len(fr['dumps']) != 1:
                 fails.append(dict(step, kind='exception', what='a fresh router fails on the scene of this step', exception=fr['exc']))
                 continue
             fd = fr['dumps'][0]
+            ctypes = None
+            if h['mode'] == 2:
+                ppos = [i for i, o in enumerate(h['ops']) if o[0] == 'P']
+                ctypes = A.conn_types_after(h['ops'][:ppos[k]])
+                if d.get('ctype', {}) != ctypes or fd.get('ctype', {}) != ctypes:
+                    fails.append(dict(step, kind='scene', what='routingType() of the connectors differs from the types the history set (dual-mode router)',
+                                      router=d.get('ctype'), fresh_router=fd.get('ctype'), expected=ctypes))
+                    break
             for c in sorted(conns):
                 s, t = conns[c]
                 route = d['disp'].get(c, [])
+                cmode = h['mode'] if ctypes is None else ctypes[c] - 1          # routing type of THIS connector: 0 poly-line, 1 orthogonal
                 qi = ask(A.q_chk(polys, s, t, route))
                 qr = ask(A.q_chk(polys, s, t, d['route'].get(c, [])))
                 qm = None
-                if with_model and h['mode'] == 0:
+                if with_model and cmode == 0:
                     qm = ask(A.q_plain(polys, s, t) if h['pen'] == 0 else A.q_taut(h['pen'], polys, s, t))
-                qmeta.append((h, k, c, s, t, polys, route, d['route'].get(c, []), fd['disp'].get(c, []), qi, qr, qm))
+                qmeta.append((h, k, c, s, t, polys, route, d['route'].get(c, []), fd['disp'].get(c, []), qi, qr, qm, cmode))
     ans = A.run_driver(drv, queries)
-    for (h, k, c, s, t, polys, route, raw, froute, qi, qr, qm) in qmeta:
+    for (h, k, c, s, t, polys, route, raw, froute, qi, qr, qm, cmode) in qmeta:
         stats['comparisons'] += 1
         step = dict(hist=h, step=k, connector=c, shapes=polys, src=s, dst=t, displayRoute=route, fresh_displayRoute=froute)
+        if h['mode'] == 2:
+            step['connector_routing_type'] = ['poly-line', 'orthogonal'][cmode]
+            if cmode == 1 and not A.is_orthogonal(route) and A.is_orthogonal(froute):
+                fails.append(dict(step, kind='route_invalid', what='an orthogonal connector of a dual-mode router has a route with a diagonal segment (the fresh router\'s is orthogonal)',
+                                  offenders=[], raw_route=raw, raw_offenders=[], degenerate=False))
+                continue
         off = A.parse_chk(ans[qi])
         if off:
             roff = A.parse_chk(ans[qr])
@@ -434,8 +478,8 @@ def evaluate(exe, drv, qdrv, hists, stats, with_model=True, samples=None):
                               offenders=off, raw_route=raw, raw_offenders=roff,
                               degenerate=A.chords_unblocked(drv, polys, raw, roff)))
             continue
-        ci = route_cost(route, h['mode'], h['pen'])
-        cf = route_cost(froute, h['mode'], h['pen'])
+        ci = route_cost(route, cmode, h['pen'])
+        cf = route_cost(froute, cmode, h['pen'])
         if len(route) > 2:
             stats['nontrivial'].add(hashlib.sha256(repr((h['cfg'], polys, s, t)).encode()).hexdigest())
         if samples is not None and len(samples) < 3 and len(route) > 2 and k >= 2:
@@ -477,7 +521,7 @@ def evaluate(exe, drv, qdrv, hists, stats, with_model=True, samples=None):
             # every shape that left its place in between (with the shape's old polygon and the real route length), flags nothing
             silent = None
             hs = h.get('_snaps') or []
-            if h['mode'] == 0 and k >= 1 and ci > cf + TOL and not (cm is not None and ci < cm - TOL) and len(route) >= 2 and k < len(hs) and \
+            if cmode == 0 and not h.get('buf', 0) and k >= 1 and ci > cf + TOL and not (cm is not None and ci < cm - TOL) and len(route) >= 2 and k < len(hs) and \
                     hs[k - 1][1].get(c) == (s, t) and h['_disp_raw'][k].get(c) == h['_disp_raw'][k - 1].get(c):
                 ppos = [i for i, o in enumerate(h['ops']) if o[0] == 'P']
                 silent = A.reroute_test_silent(h['ops'][ppos[k - 1] + 1:ppos[k]], h['trans'], hs[k - 1][0], route)
@@ -501,7 +545,7 @@ def shrink(exe, drv, qdrv, h, kind):
         i = 0
         while i < len(ops):
             cand = ops[:i] + ops[i + 1:]
-            if cand and cand[-1] == ('P',) and simulate(cand, h['trans'], generic=h.get('generic', True), family=h.get('family')) is not None:
+            if cand and cand[-1] == ('P',) and simulate(cand, h['trans'], generic=h.get('generic', True), family=h.get('family'), buf=h.get('buf', 0)) is not None:
                 st = new_stats()
                 f = evaluate(exe, drv, qdrv, [dict(h, ops=cand)], st, with_model=False)
                 if any(x['kind'] == kind for x in f):
@@ -524,7 +568,7 @@ def report(res, exe, drv, qdrv, fails, stats, do_shrink=True):
         h = f['hist']
         if f['kind'] == 'route_invalid' and f.get('degenerate'):
             stats['known_degenerate_chord'] += 1
-            obj = dict(f, hist=None, config=h['cfg'], history=[op_str(o) for o in h['ops']], script=hist_script(h['ops'], h['mode'], h['pen'], h['trans'], h.get('opts')))
+            obj = dict(f, hist=None, config=h['cfg'], history=[op_str(o) for o in h['ops']], script=hist_script(h['ops'], h['mode'], h['pen'], h['trans'], h.get('opts'), h.get('buf', 0)))
             if not res.violation(obj, fingerprint='degenerate_chord'):
                 continue
         key = (id(h), f['kind'])
@@ -534,7 +578,7 @@ def report(res, exe, drv, qdrv, fails, stats, do_shrink=True):
             seen.add(key)
             stats['known_reroute_silent'] = stats.get('known_reroute_silent', 0) + 1
             obj = dict(f, hist=None, config=h['cfg'], mode=h['mode'], segmentPenalty=h['pen'], transactions=h['trans'],
-                       history=[op_str(o) for o in h['ops']], script=hist_script(h['ops'], h['mode'], h['pen'], h['trans'], h.get('opts')))
+                       history=[op_str(o) for o in h['ops']], script=hist_script(h['ops'], h['mode'], h['pen'], h['trans'], h.get('opts'), h.get('buf', 0)))
             if not res.violation(obj, fingerprint='selective_reroute_not_flagged'):
                 continue
         if len(res.violations) >= 6:
@@ -559,7 +603,7 @@ def report(res, exe, drv, qdrv, fails, stats, do_shrink=True):
         obj.update({'config': h['cfg'], 'mode': h['mode'], 'segmentPenalty': h['pen'], 'transactions': h['trans'], 'family': h.get('family'),
                     'history': [op_str(o) for o in h['ops']],
                     'minimal_history': [op_str(o) for o in ops],
-                    'script': hist_script(ops, h['mode'], h['pen'], h['trans'], h.get('opts')),
+                    'script': hist_script(ops, h['mode'], h['pen'], h['trans'], h.get('opts'), h.get('buf', 0)), 'shapeBufferDistance': h.get('buf', 0),
                     'router_flags': AO.opts_json(h.get('opts')),
                     'replay': './check C06 --replay <this file>  (runs "script" on harness/c03_route.cpp, a fresh router per step, and compares)'})
         res.violation(obj)
@@ -579,6 +623,8 @@ def parse_ops(strs):
             ops.append(('C', int(t[1]), (int(t[2]), int(t[3])), (int(t[4]), int(t[5]))))
         elif t[0] == 'E':
             ops.append(('E', int(t[1]), int(t[2]), (int(t[3]), int(t[4]))))
+        elif t[0] == 'Y':
+            ops.append(('Y', int(t[1]), int(t[2])))
         elif t[0] == 'P':
             ops.append(('P',))
     return ops
@@ -591,7 +637,7 @@ def corpus_hists():
         if f.startswith('c06_') and f.endswith('.json'):
             j = json.load(open(os.path.join(d, f)))
             out.append(dict(cfg='corpus:' + f, mode=j['mode'], pen=j['segmentPenalty'], trans=j['transactions'], ops=parse_ops(j['history']),
-                            generic=False, family=j.get('family'), opts=AO.opts_from_json(j.get('router_flags'))))
+                            generic=False, family=j.get('family'), opts=AO.opts_from_json(j.get('router_flags')), buf=j.get('shapeBufferDistance', 0)))
     return out
 
 
@@ -684,6 +730,50 @@ def run(tier):
         for _ in range(n_gen):
             ops = gen_history(rng_o, trans, False, w_add=5, w_move=65, w_resize=10, w_del=10)
             hists.append(dict(cfg=name + '-moves', mode=mode, pen=pen, trans=trans, ops=ops, generic=True, opts=combos[combo]))
+    # shapeBufferDistance > 0: own rng stream
+    rng_b = C.SplitMix64(C.get_seed() ^ 0xC0608)
+    for (name, mode, pen, trans, buf, S) in BUF_CONFIGS:
+        n_gen, n_dir, n_zone = (4, 3, 8 if mode == 0 else 3) if tier == 'quick' else (40, 30, 80 if mode == 0 else 30)
+        k = 0
+        while k < n_gen + n_dir:
+            if k < n_gen:
+                ops0, fam = (gen_history(rng_b, trans, mode == 1, w_add=5, w_move=65, w_resize=10, w_del=10, rect_only=True) if k % 2 else
+                             gen_history(rng_b, trans, mode == 1, rect_only=True)), 'generic'
+            else:
+                fam, g = [('noop', A.gen_noop_move_history), ('addmove', A.gen_addmove_history), ('only', A.gen_homogeneous_history)][k % 3]
+                ops0 = g(rng_b, rect_only=True)[0]
+            ops = A.buffered_ops(ops0, S, buf) if ops0 else None
+            if ops is None or simulate(ops, trans, generic=True, buf=buf) is None:
+                continue
+            k += 1
+            stats['directed_variants']['buffer:' + fam] = stats['directed_variants'].get('buffer:' + fam, 0) + 1
+            hists.append(dict(cfg=name, mode=mode, pen=pen, trans=trans, ops=ops, generic=True, buf=buf))
+        k = tries = 0
+        while k < n_zone and tries < 40 * n_zone:
+            tries += 1
+            ops, tags = A.gen_bufzone_history(rng_b, buf)
+            if ops is None or simulate(ops, trans, generic=True, buf=buf) is None:
+                continue
+            k += 1
+            for t in tags:
+                stats['directed_variants']['bufzone:' + t] = stats['directed_variants'].get('bufzone:' + t, 0) + 1
+            hists.append(dict(cfg=name + '-bufzone', mode=mode, pen=pen, trans=trans, ops=ops, generic=True, buf=buf))
+    for (name, mode, pen, trans) in TYPE_CONFIGS:
+        n_ts, n_inj = (10, 4) if tier == 'quick' else (90, 40)
+        k = 0
+        while k < n_ts + n_inj:
+            if k < n_ts:
+                ops, tags = A.gen_typeswitch_history(rng_b)
+            else:
+                ops0 = gen_history(rng_b, trans, True, w_add=5, w_move=65, w_resize=10, w_del=10, rect_only=True) if k % 2 else gen_history(rng_b, trans, True, rect_only=True)
+                ops, tags = A.inject_type_switches(rng_b, ops0), ['injected']
+            if ops is None or simulate(ops, trans, generic=True) is None:
+                continue
+            k += 1
+            for t in tags:
+                stats['directed_variants']['typeswitch:' + t.split(':')[0] + (':' + t.split(':')[1] if t.startswith(('alone', 'end_', 'switch_')) else '')] = \
+                    stats['directed_variants'].get('typeswitch:' + t.split(':')[0] + (':' + t.split(':')[1] if t.startswith(('alone', 'end_', 'switch_')) else ''), 0) + 1
+            hists.append(dict(cfg=name, mode=mode, pen=pen, trans=trans, ops=ops, generic=True))
     allfails = []
     for i in range(0, len(hists), 60):
         allfails += evaluate(exe, drv, qdrv, hists[i:i + 60], stats, True, samples)
@@ -729,9 +819,9 @@ def replay(path):
     fam = j.get('family')
     if fam is None:
         fam = 'pocket' if 'pocket' in cfgname else 'shared' if cfgname.startswith('shared') else \
-            'contains' if cfgname.startswith('contains') or simulate(ops, j['transactions'], generic=False) is None else None
+            'contains' if cfgname.startswith('contains') or simulate(ops, j['transactions'], generic=False, buf=j.get('shapeBufferDistance', 0)) is None else None
     h = dict(cfg='replay', mode=j['mode'], pen=j['segmentPenalty'], trans=j['transactions'], ops=ops, generic=False, family=fam,
-             opts=AO.opts_from_json(j.get('router_flags')))
+             opts=AO.opts_from_json(j.get('router_flags')), buf=j.get('shapeBufferDistance', 0))
     fails = evaluate(exe, drv, qdrv, [h], new_stats(), True, None)
     for f in fails:
         f.pop('hist', None)
